@@ -1,30 +1,84 @@
 (* Property C08 — limit/passes semantics and clean end of ammo on every provider.
-   Statements only; proofs live in Proofs/ProviderProofs.v.  (work in progress: the kinds
-   whose current code satisfies the property) *)
+
+   Statements only; proofs live in Proofs/ProviderProofs.v, the model in Model/Provider.v.
+   Quantified over: every provider kind [k : pkind] (uri, uripost, raw, jsonline stream,
+   jsonline array, each with and without preload; the scenario loop shared by http/scenario
+   and grpc/scenario; grpc/json; the generic decode provider over MultiPassReader), every
+   limit and passes in nat, every file [es] of n >= 1 entries, every fuel, every cancellation
+   point.  The number of consumers does not occur: what is sent to the sink does not depend
+   on who receives it.  [cfg0 lim pas] is the configuration without a chosencases filter
+   (the filter is property C14).  [step_const] = 4. *)
 From Coq Require Import List Arith Bool.
 From PV Require Import Model.Provider Proofs.ProviderProofs.
 Import ListNotations.
 
-Theorem C08_http_streaming : forall k es lim pas,
-  (k = DUri \/ k = DUripost \/ k = DRaw \/ k = DJsonl) -> es <> [] ->
-  c08_spec (http_run k false (cfg0 lim pas) es) es (bound lim pas (length es)) (length es) 2.
-Proof.
-  intros k es lim pas Hk Hn.
-  destruct Hk as [->|[->|[->| ->]]].
-  - exact (http_stream_c08 DUri es lim pas _ (uri_contract es lim pas Hn)).
-  - exact (http_stream_c08 DUripost es lim pas _ (uripost_contract es lim pas Hn)).
-  - exact (http_stream_c08 DRaw es lim pas _ (raw_contract es lim pas Hn)).
-  - exact (http_stream_c08 DJsonl es lim pas _ (jsonl_contract es lim pas Hn)).
-Qed.
-Print Assumptions C08_http_streaming.
+(* Exactly min of the non-zero bounds among limit and passes*n items are delivered, and they
+   are the cyclic prefix of the file; never more than a bound or than the cancellation point;
+   with no bound every prefix of the cyclic sequence is delivered. *)
+Theorem C08_count : forall (k : pkind) es lim pas,
+  es <> [] ->
+  let n := length es in
+  let runk := run k (cfg0 lim pas) es in
+  (forall b fuel, bound lim pas n = Some b -> step_const * (b + n + 1) < fuel ->
+     delivered (runk None fuel) = cyc_prefix es b /\ length (delivered (runk None fuel)) = b)
+  /\ (forall cancel fuel,
+        delivered (runk cancel fuel) = cyc_prefix es (length (delivered (runk cancel fuel)))
+        /\ le_opt (length (delivered (runk cancel fuel))) (bound lim pas n)
+        /\ (forall j, cancel = Some j -> length (delivered (runk cancel fuel)) <= j))
+  /\ (bound lim pas n = None -> forall m, exists fuel,
+        m <= length (delivered (runk None fuel))
+        /\ firstn m (delivered (runk None fuel)) = cyc_prefix es m).
+Proof. exact c08_count. Qed.
+Print Assumptions C08_count.
 
-Theorem C08_decode_provider : forall es lim pas, es <> [] ->
-  c08_spec (decode_run (cfg0 lim pas) es) es (bound lim pas (length es)) (length es) 2.
-Proof. exact decode_c08. Qed.
-Print Assumptions C08_decode_provider.
+(* When a bound exists the provider's Run returns nil and the sink is closed, so the next
+   Acquire of every instance reports end of ammo. *)
+Theorem C08_clean_end : forall (k : pkind) es lim pas b fuel,
+  es <> [] -> bound lim pas (length es) = Some b -> step_const * (b + length es + 1) < fuel ->
+  let r := run k (cfg0 lim pas) es None fuel in
+  out r = Ok /\ closed r = true /\ acquire_after r = AcqEndOfAmmo.
+Proof. exact c08_clean_end. Qed.
+Print Assumptions C08_clean_end.
 
-Example C08_example :
-  let es := [ {| e_tag := 0; e_id := 0 |}; {| e_tag := 1; e_id := 1 |} ] in
-  ids (delivered (run (KHttp DUri false) (cfg0 3 0) es None 100)) = [0; 1; 0]
-  /\ out (run (KHttp DUri false) (cfg0 3 0) es None 100) = Ok.
-Proof. split; reflexivity. Qed.
+(* No spinning: the number of loop iterations is at most step_const*(deliveries + n + 1);
+   a bounded run never runs out of that budget; after cancellation the provider returns
+   within the budget with its sink closed, nil or context.Canceled, nothing delivered beyond
+   the cancellation point. *)
+Theorem C08_no_spin : forall (k : pkind) es lim pas,
+  es <> [] ->
+  let n := length es in
+  let runk := run k (cfg0 lim pas) es in
+  (forall cancel fuel,
+      steps (runk cancel fuel) <= step_const * (length (delivered (runk cancel fuel)) + n + 1)
+      /\ (out (runk cancel fuel) = OutOfFuel -> steps (runk cancel fuel) = fuel))
+  /\ (forall b fuel, bound lim pas n = Some b -> step_const * (b + n + 1) < fuel ->
+        out (runk None fuel) <> OutOfFuel)
+  /\ (forall j fuel, step_const * (j + n + 1) < fuel ->
+        let r := runk (Some j) fuel in
+        out r <> OutOfFuel /\ closed r = true /\ acquire_after r = AcqEndOfAmmo
+        /\ clean_or_cancelled (out r) /\ length (delivered r) <= j).
+Proof. exact c08_no_spin. Qed.
+Print Assumptions C08_no_spin.
+
+(* The bound is what the property text says: min of the non-zero bounds. *)
+Theorem C08_bound_is_min_of_nonzero : forall lim pas n,
+  bound 0 0 n = None
+  /\ (lim <> 0 -> bound lim 0 n = Some lim)
+  /\ (pas <> 0 -> bound 0 pas n = Some (pas * n))
+  /\ (lim <> 0 -> pas <> 0 -> bound lim pas n = Some (Nat.min lim (pas * n))).
+Proof. exact bound_is_min. Qed.
+Print Assumptions C08_bound_is_min_of_nonzero.
+
+(* Non-vacuity: concrete runs of the model. A single-element JSON array with passes = 1
+   delivers one item (defect #9 of DESIGN.md, fixed); preload + limit ends Ok (#8, fixed);
+   grpc/json with a limit and no passes terminates (#10, fixed); the scenario loop closes its
+   sink (#11, fixed). *)
+Example C08_examples :
+  let e i := {| e_tag := i; e_id := i |} in
+  ids (delivered (run (KHttp DJsonArr false) (cfg0 0 1) [e 0] None 100)) = [0]
+  /\ out (run (KHttp DUri true) (cfg0 3 0) [e 0; e 1] None 100) = Ok
+  /\ ids (delivered (run (KHttp DUri true) (cfg0 3 0) [e 0; e 1] None 100)) = [0; 1; 0]
+  /\ out (run KGrpcJson (cfg0 3 0) [e 0; e 1] None 100) = Ok
+  /\ closed (run KScenario (cfg0 0 2) [e 0; e 1] None 100) = true
+  /\ ids (delivered (run KDecode (cfg0 5 2) [e 0; e 1; e 2] None 100)) = [0; 1; 2; 0; 1].
+Proof. repeat split; reflexivity. Qed.
